@@ -5,10 +5,12 @@
 
 mod common;
 mod c09;
+mod c10;
 mod c11;
 mod c12;
 mod c13;
 mod c16;
+mod c18;
 mod corpus;
 mod e1;
 mod oracles;
@@ -34,6 +36,10 @@ fn main() {
         usage();
     }
     install_panic_hook();
+    if args[1] == "c18-fresh" && args.len() >= 4 {
+        c18::fresh_main(args[2].parse().unwrap_or(0), args[3].parse().unwrap_or(0));
+        return;
+    }
     if args[1] == "replay" {
         std::process::exit(replay(&args[2]));
     }
@@ -57,10 +63,12 @@ fn main() {
         "C06" => e1::run_c06(tier),
         "C14" => e1::run_c14(tier),
         "C09" => c09::run(tier),
+        "C10" => c10::run(tier),
         "C11" => c11::run(tier),
         "C12" => c12::run(tier),
         "C13" => c13::run(tier),
         "C16" => c16::run(tier),
+        "C18" => c18::run(tier),
         _ => {
             eprintln!("engine: unknown property {id}");
             std::process::exit(2)
@@ -124,6 +132,8 @@ fn replay(path: &str) -> i32 {
         "C12" => c12::replay(case),
         "C09" => c09::replay(case),
         "C13" => c13::replay(case),
+        "C10" => c10::replay(case),
+        "C18" => c18::replay(case),
         "C16" => c16::replay(case),
         _ => {
             eprintln!("engine: replay not supported for {id}");
